@@ -19,6 +19,8 @@ var sigQuit = syscall.SIGQUIT
 
 var bg = context.Background()
 
+type timeT = time.Time
+
 // ---------------------------------------------------------------------------
 // Uniform view of the three backends.
 
